@@ -47,6 +47,9 @@ pub struct Caps {
     pub extend: bool,
     /// several shell actions before the next run: 0 = no, 1 = drops followed by one call, 2 = any
     pub batch: u8,
+    /// a serialized image of the typed core: the requests of one call must also come in the
+    /// order in which the typed twin (first host with the same model) returns its effects
+    pub order_twin: bool,
 }
 
 pub trait Host {
@@ -209,6 +212,7 @@ impl<Ef: LabEffect> Host for Direct<Ef> {
             command_api: true,
             extend: true,
             batch: 2,
+            order_twin: false,
         }
     }
     fn prepare(&mut self, program: &Cmd) {
@@ -392,6 +396,7 @@ impl<Ef: LabEffect> Host for StreamHost<Ef> {
             command_api: true,
             extend: true,
             batch: 2,
+            order_twin: false,
         }
     }
     fn prepare(&mut self, program: &Cmd) {
@@ -596,6 +601,7 @@ impl<Ef: LabEffect> Host for EagerHost<Ef> {
             command_api: true,
             extend: false,
             batch: 2,
+            order_twin: false,
         }
     }
     fn prepare(&mut self, program: &Cmd) {
@@ -754,6 +760,7 @@ where
             command_api: !self.legacy,
             extend: false,
             batch: if self.legacy { 0 } else { 1 },
+            order_twin: false,
         }
     }
     fn start(&mut self, program: &Cmd) -> Obs {
@@ -881,6 +888,8 @@ where
     pub ids: HashMap<Key, (u32, u8)>,
     pub seen_log: usize,
     pub ids_seen: Vec<u32>,
+    /// no-op probes sent so far (every 48th carries 1-2 MiB of bulk)
+    pub noops: u64,
 }
 
 impl<A: LabApp> BridgeHost<A>
@@ -896,6 +905,7 @@ where
                 ids: HashMap::new(),
                 seen_log: 0,
                 ids_seen: vec![],
+                noops: 0,
             },
             Wire::Json => BridgeHost {
                 bincode: None,
@@ -903,6 +913,7 @@ where
                 ids: HashMap::new(),
                 seen_log: 0,
                 ids_seen: vec![],
+                noops: 0,
             },
         }
     }
@@ -1071,6 +1082,7 @@ where
             command_api: true,
             extend: false,
             batch: 0,
+            order_twin: true,
         }
     }
     fn start(&mut self, program: &Cmd) -> Obs {
@@ -1109,7 +1121,16 @@ where
                 }
                 self.send_event(&Event::Noop)
             }
-            Action::Noop => self.send_event(&Event::Noop),
+            Action::Noop => {
+                self.noops += 1;
+                if self.noops % 48 == 7 {
+                    // a message of more than 1 MiB: the bridge has no size limit of its own
+                    let n = (1 << 20) + 17 + (self.noops as usize % 5) * 300_000;
+                    self.send_event(&Event::Pad(vec![0xAB; n]))
+                } else {
+                    self.send_event(&Event::Noop)
+                }
+            }
             Action::Extend(_) | Action::Batch(_) => unreachable!("not available over the bridge"),
         };
         self.observe(r, &mut out);
